@@ -277,7 +277,9 @@ def r01_2(chk):
     fn = m.method('Laminate', 'calc_constitutive_matrix')
     fname = 'Laminate.calc_constitutive_matrix'
     defs = {k: [norm(v) for v in vs if v is not None] for k, vs in local_defs(fn).items()}
-    chk.ob('R01.2', defs.get('lam_thick') == ['sum([ply.tforplyinself.plies])'], LAMINATE, fname, 'laminate thickness', got=defs.get('lam_thick'))
+    lt = [re.sub(r'^sum\(\(?\[?(.*?)\]?\)?\)$', r'sum(\1)', v) for v in defs.get('lam_thick', [])]
+    okt = len(lt) == 1 and re.match(r'^sum\((\w+)\.tfor\1inself\.plies\)$', lt[0]) is not None
+    chk.ob('R01.2', okt, LAMINATE, fname, 'laminate thickness', expected='sum of ply.t over self.plies', got=defs.get('lam_thick'))
     h0s = [st for st in fn.body if isinstance(st, ast.Assign) and norm(st.targets[0]) == 'h0']
     ok = False
     if len(h0s) == 1:
